@@ -900,6 +900,25 @@ def m_box_deref(I, st, fn, ce, args, line, depth, dest_ty, may_unwind):
     return None
 
 
+def m_cow_deref(I, st, fn, ce, args, line, depth, dest_ty, may_unwind):
+    """`&Cow<[T]>` -> `&[T]`: the borrowed slice, or the owned vector seen as a slice"""
+    a = args[0]
+    if a[0] != "ref":
+        return None
+    try:
+        v = I.load(st, a[1])
+    except Undecided:
+        return None
+    if not (v[0] == "agg" and v[1] == "adt" and str(v[2]).endswith("::Cow") and v[4]):
+        return None
+    inner = v[4][0]
+    if as_view(I, st, inner) is not None:
+        return [("ret", inner if inner[0] == "ref" or v[3] == 0 else as_view(I, st, inner), st)]
+    if v[3] == 0:
+        return [("ret", inner, st)]
+    return [("ret", Ref(I.add_proj(a[1], 0)), st)]
+
+
 def m_set_new(I, st, fn, ce, args, line, depth, dest_ty, may_unwind):
     if not getattr(I, "model_vecs", False):
         return None
@@ -1307,6 +1326,7 @@ def install():
     M["core::slice::<impl [T]>::into_vec"] = interp.m_identity
     M["<std::boxed::Box<T, A> as std::ops::Deref>::deref"] = m_box_deref
     M["<std::boxed::Box<T, A> as std::ops::DerefMut>::deref_mut"] = m_box_deref
+    M["<std::borrow::Cow<'_, B> as std::ops::Deref>::deref"] = m_cow_deref
     M["<std::sync::Arc<T, A> as std::ops::Deref>::deref"] = interp.m_rc_deref
     M["<std::rc::Rc<T, A> as std::ops::Deref>::deref"] = interp.m_rc_deref
     for nm in ("sort_by_key", "sort_unstable_by_key", "sort_by_cached_key"):
